@@ -30,6 +30,9 @@ pub enum Mutation {
     NoFinalNewline,
     /// overwrite a byte with 0xFF / 0xC3 (invalid or truncated UTF-8)
     InvalidUtf8(usize, bool),
+    /// insert a whole line before line i: a two-letter field code (TRANSFAC style), or a
+    /// header-like / terminator-like line of one of the formats in an odd place
+    InsertLine(usize, String),
     /// replace everything by arbitrary bytes
     Arbitrary(Vec<u8>),
     Empty,
@@ -107,6 +110,12 @@ fn apply(mut b: Vec<u8>, m: &Mutation) -> Vec<u8> {
         }
         Mutation::Arbitrary(v) => v.clone(),
         Mutation::Empty => Vec::new(),
+        Mutation::InsertLine(i, text) => {
+            let mut ls = lines_of(&b);
+            let i = i % (ls.len() + 1);
+            ls.insert(i, format!("{}\n", text).into_bytes());
+            ls.concat()
+        }
         Mutation::DuplicateLine(i) | Mutation::RemoveLine(i) | Mutation::SwapLines(i) | Mutation::RaggedLine(i) | Mutation::LongerLine(i) | Mutation::DropMatrix(i) => {
             let mut ls = lines_of(&b);
             if ls.is_empty() {
@@ -182,6 +191,10 @@ pub fn mutation_strategy() -> BoxedStrategy<Mutation> {
         3 => any::<usize>().prop_map(Mutation::RaggedLine),
         1 => any::<usize>().prop_map(Mutation::LongerLine),
         3 => any::<usize>().prop_map(Mutation::DropMatrix),
+        3 => (any::<usize>(), (b'A'..=b'Z', b'A'..=b'Z', any::<bool>())).prop_map(|(i, (a, b, text))| {
+            Mutation::InsertLine(i, format!("{}{}{}", a as char, b as char, if text { "  some text." } else { "" }))
+        }),
+        2 => (any::<usize>(), proptest::sample::select(vec![">", ">x y", "//", "VV  x", "XX", "P0", "PO  A", "P0  A  C  G  T", "01  1  2  3  4", "A:\t0.1", "A [ 1 2 ]", "RN  [1]", "RN  [1]; x.", "DT  01.02.2003 (created); x.", "RX  PUBMED: 1.", "CC", ""])).prop_map(|(i, t)| Mutation::InsertLine(i, t.to_string())),
         2 => Just(Mutation::NoFinalNewline),
         2 => (any::<usize>(), any::<bool>()).prop_map(|(i, l)| Mutation::InvalidUtf8(i, l)),
         1 => proptest::collection::vec(any::<u8>(), 0..200).prop_map(Mutation::Arbitrary),
@@ -212,7 +225,7 @@ impl Sub for Structured {
         "structured-mutations"
     }
     fn rule(&self) -> &'static str {
-        "a valid generated file (C14's writers, 1..6 records) or one of the repository's small test files, with 1..3 mutations (prefix, byte substitution / deletion / insertion, line duplication / removal / swap, ragged or longer row, header without matrix, missing final newline, invalid UTF-8, arbitrary bytes, empty), read by the reader of its own format (or, 1 in 5, another format's) under 2 generated chunkings; Reader::new and every next() must return (a panic fails) and a consumer stopping at the first Err / None must stop within len+2 calls; sweep = EVERY prefix of the repository's 8 small files and of a generated file per format, under chunk size 1 and a cursor; non-trivial = non-empty input on which the reader does not simply succeed as on the unmutated file"
+        "a valid generated file (C14's writers, 1..6 records) or one of the repository's small test files, with 1..3 mutations (prefix, byte substitution / deletion / insertion, line duplication / removal / swap, ragged or longer row, header without matrix, an inserted line (any two-letter field code, or a header / terminator / matrix-like line of one of the formats in an odd place), missing final newline, invalid UTF-8, arbitrary bytes, empty), read by the reader of its own format (or, 1 in 5, another format's) under 2 generated chunkings; Reader::new and every next() must return (a panic fails) and a consumer stopping at the first Err / None must stop within len+2 calls; sweep = EVERY prefix of the repository's 8 small files and of a generated file per format, under chunk size 1 and a cursor; non-trivial = non-empty input on which the reader does not simply succeed as on the unmutated file"
     }
     fn cases(&self, tier: Tier) -> u64 {
         tier.pick(100_000, 3_000_000)
@@ -291,6 +304,7 @@ impl Sub for Structured {
                 Mutation::RaggedLine(_) => "mut:ragged-row",
                 Mutation::LongerLine(_) => "mut:longer-row",
                 Mutation::DropMatrix(_) => "mut:header-without-matrix",
+                Mutation::InsertLine(..) => "mut:insert-line",
                 Mutation::NoFinalNewline => "mut:no-final-newline",
                 Mutation::InvalidUtf8(..) => "mut:invalid-utf8",
                 Mutation::Arbitrary(_) => "mut:arbitrary",
